@@ -263,6 +263,40 @@ def ifChanged (σ σt σe : Sig) (cands : List AccId) : List AccId :=
     | some vt, some ve => !(σ a == some vt && σ a == some ve)
     | _, _ => false
 
+/-- scf.if after both branches have been woven (`wt`, `we`): new results for the changed accelerators, invalidated
+accelerators dropped, the rest unchanged -/
+def ifFinish (c : Var) (σ : Sig) (cands : List AccId) (wt we : WB) (ρ : List (StateId × StateId)) : WS :=
+  let ch := ifChanged σ wt.sig we.sig cands
+  let ress := mkIds ch we.nxt
+  ⟨[], .ifS c wt.blk we.blk
+        (ch.map fun a => IfRes.mk a ((ress.lookup a).getD 0) ((wt.sig a).getD 0) ((we.sig a).getD 0)),
+   fun a =>
+     match ress.lookup a with
+     | some v => some v
+     | none => if (wt.sig a).isSome && (we.sig a).isSome then σ a else none,
+   noSig, we.nxt + ch.length, ρ⟩
+
+/-- the dictionary passed into the body of a loop: the new block arguments for the accelerators set up in it -/
+def forBodySig (us : List AccId) (en : List (AccId × StateId) × Sig × Nat) : Sig :=
+  withIds en.2.1 (mkIds us en.2.2)
+
+/-- scf.for after its body has been woven (`wb`): `en` = result of `ensure` in front of the loop (inserted empty
+setups, dictionary, next id); empty setups in front of the yield where the state got invalidated, iter_args /
+yield operands / results, dictionary after the loop -/
+def forFinish (lb ub st iv : Var) (us : List AccId) (en : List (AccId × StateId) × Sig × Nat) (wb : WB)
+    (ρ : List (StateId × StateId)) : WS :=
+  let args := mkIds us en.2.2
+  let ey := ensure us wb.sig wb.nxt
+  let ress := mkIds us ey.2.2
+  ⟨en.1, .forS lb ub st iv (appEmpties wb.blk ey.1)
+        (us.map fun a => ForCar.mk a ((args.lookup a).getD 0) ((en.2.1 a).getD 0) ((ey.2.1 a).getD 0)
+          ((ress.lookup a).getD 0)),
+   fun a =>
+     match ress.lookup a with
+     | some v => some v
+     | none => if (wb.sig a).isSome then en.2.1 a else none,
+   noSig, ey.2.2 + us.length, ρ⟩
+
 /-
 `_weave_states_in_region`. Arguments: `σ` the state dictionary, `cur` (bookkeeping of the model only: the state
 produced by the last setup of an accelerator in the straight-line code in front of this point, reset by control
@@ -292,14 +326,7 @@ def weaveS : PStmt → Sig → Sig → Nat → List (StateId × StateId) → WS
   | .ifS c t e, σ, _, n, ρ =>
       let wt := weaveB t σ noSig n ρ
       let we := weaveB e σ noSig wt.nxt ρ
-      let ch := ifChanged σ wt.sig we.sig (sortU (accsPB t ++ accsPB e))
-      let ress := mkIds ch we.nxt
-      let res := ch.map fun a => IfRes.mk a ((ress.lookup a).getD 0) ((wt.sig a).getD 0) ((we.sig a).getD 0)
-      let σ' : Sig := fun a =>
-        match ress.lookup a with
-        | some v => some v
-        | none => if (wt.sig a).isSome && (we.sig a).isSome then σ a else none
-      ⟨[], .ifS c wt.blk we.blk res, σ', noSig, we.nxt + ch.length, ρ⟩
+      ifFinish c σ (sortU (accsPB t ++ accsPB e)) wt we ρ
   | .forS lb ub st iv body, σ, _, n, ρ =>
       let us := sortU (accsPB body)
       if us.isEmpty then
@@ -307,17 +334,7 @@ def weaveS : PStmt → Sig → Sig → Nat → List (StateId × StateId) → WS
         ⟨[], .forS lb ub st iv wb.blk [], if effPB body then noSig else σ, noSig, wb.nxt, ρ⟩
       else
         let en := ensure us σ n
-        let args := mkIds us en.2.2
-        let wb := weaveB body (withIds en.2.1 args) noSig (en.2.2 + us.length) ρ
-        let ey := ensure us wb.sig wb.nxt
-        let ress := mkIds us ey.2.2
-        let car := us.map fun a =>
-          ForCar.mk a ((args.lookup a).getD 0) ((en.2.1 a).getD 0) ((ey.2.1 a).getD 0) ((ress.lookup a).getD 0)
-        let σ' : Sig := fun a =>
-          match ress.lookup a with
-          | some v => some v
-          | none => if (wb.sig a).isSome then en.2.1 a else none
-        ⟨en.1, .forS lb ub st iv (appEmpties wb.blk ey.1) car, σ', noSig, ey.2.2 + us.length, ρ⟩
+        forFinish lb ub st iv us en (weaveB body (forBodySig us en) noSig (en.2.2 + us.length) ρ) ρ
 def weaveB : PBlock → Sig → Sig → Nat → List (StateId × StateId) → WB
   | .nil, σ, _, n, ρ => ⟨.nil, σ, n, ρ⟩
   | .cons s r, σ, cur, n, ρ =>
